@@ -5,9 +5,11 @@ import (
 	"bytes"
 	"encoding/json"
 	"fmt"
+	"io"
 	"os"
 	"reflect"
 	"strings"
+	"testing/iotest"
 	"text/scanner"
 
 	"github.com/alecthomas/participle/v2"
@@ -113,6 +115,35 @@ func apiRun(args []string) error {
 				guard("ParseString", func() string { a, e := b.p.ParseString("fn", s, tr); return render(a, e, raw) })
 				guard("ParseBytes", func() string { a, e := b.p.ParseBytes("fn", []byte(s), tr); return render(a, e, raw) })
 				guard("Parse", func() string { a, e := b.p.Parse("fn", strings.NewReader(s), tr); return render(a, e, raw) })
+				// readers that deliver the same bytes differently: data together with io.EOF, one byte per Read, a reader
+				// with a Name() of its own (the caller's filename wins; the reader's name is used only when none is given)
+				guard("Parse(DataErrReader)", func() string {
+					a, e := b.p.Parse("fn", iotest.DataErrReader(strings.NewReader(s)), tr)
+					return render(a, e, raw)
+				})
+				guard("Parse(OneByteReader)", func() string {
+					a, e := b.p.Parse("fn", iotest.OneByteReader(strings.NewReader(s)), tr)
+					return render(a, e, raw)
+				})
+				guard("Parse(named reader)", func() string {
+					a, e := b.p.Parse("fn", namedReader{strings.NewReader(s), "other.txt"}, tr)
+					return render(a, e, raw)
+				})
+				guard("Parse(no filename, reader named fn)", func() string {
+					a, e := b.p.Parse("", namedReader{strings.NewReader(s), "fn"}, tr)
+					return render(a, e, raw)
+				})
+				for _, rd := range []struct {
+					ep string
+					r  io.Reader
+				}{{"Lex(DataErrReader)", iotest.DataErrReader(strings.NewReader(s))}, {"Lex(named reader)", namedReader{strings.NewReader(s), "other.txt"}}} {
+					raw2, lerr2 := b.p.Lex("fn", rd.r)
+					if lerr2 != nil {
+						emit(rd.ep, "lexerr "+lerr2.Error())
+					} else {
+						emit(rd.ep, tokensKey(raw2, names))
+					}
+				}
 				guard("ParseString+Trace", func() string {
 					var buf bytes.Buffer
 					a, e := b.p.ParseString("fn", s, tr, participle.Trace(&buf))
@@ -156,6 +187,8 @@ func apiRun(args []string) error {
 					return tokensKey(ts, names)
 				}
 				emit("def.Lex", defKey(t1, e1))
+				t1b, e1b := lexAll(d.Lex("fn", iotest.DataErrReader(strings.NewReader(s))))
+				emit("def.Lex(DataErrReader)", defKey(t1b, e1b))
 				if sd, ok := d.(lexer.StringDefinition); ok {
 					t2, e2 := lexAll(sd.LexString("fn", s))
 					emit("def.LexString", defKey(t2, e2))
@@ -169,6 +202,14 @@ func apiRun(args []string) error {
 	}
 	return nil
 }
+
+// namedReader is a reader with a name of its own (like *os.File).
+type namedReader struct {
+	io.Reader
+	name string
+}
+
+func (n namedReader) Name() string { return n.name }
 
 // prWord is a root grammar type implemented by user code (Parseable): it consumes exactly one token.
 type prWord struct {
